@@ -114,6 +114,7 @@ func c20Gen(t *rapid.T) (hostile, twin c20Req, desc string, rawValue string) {
 			bk = strings.Replace(key, "K", "k", 1)
 		}
 		var hv, bv any = val, "x"
+		variant := ""
 		switch key {
 		case "address", "account", "source", "destination":
 			bv = benignAddress(val)
@@ -121,6 +122,15 @@ func c20Gen(t *rapid.T) (hostile, twin c20Req, desc string, rawValue string) {
 		if rapid.IntRange(0, 9).Draw(t, "nonString") == 0 {
 			alt := rapid.SampledFrom([]any{1, 1.5, true, nil, []any{"a"}, map[string]any{"a": "b"}}).Draw(t, "alt")
 			hv, bv = alt, alt
+		}
+		if rapid.IntRange(0, 3).Draw(t, "keyVariant") == 0 {
+			// the filter key is client text as well: another spelling of an accepted key (letter case, letters that
+			// case-fold to ASCII ones, blanks around it, something appended); the twin spells it as documented
+			hv = bv
+			hk = c20KeyVariant(t, bk)
+			variant = " (key spelled differently)"
+			rawValue = hk
+			val = hk
 		}
 		mk := func(k string, v any) map[string]any { return map[string]any{op: map[string]any{k: v}} }
 		hb, bb := mk(hk, hv), mk(bk, bv)
@@ -163,7 +173,7 @@ func c20Gen(t *rapid.T) (hostile, twin c20Req, desc string, rawValue string) {
 			q.Add("expand", "volumes")
 		}
 		path := "/api/ledger/v2/l1/" + ep
-		return c20Req{method, path, q, hb}, c20Req{method, path, q, bb}, fmt.Sprintf("v2 %s %s %s %s", method, ep, key, op), rawValue
+		return c20Req{method, path, q, hb}, c20Req{method, path, q, bb}, fmt.Sprintf("v2 %s %s %s %s%s", method, ep, key, op, variant), rawValue
 	}
 	// v1: query parameters
 	ep := rapid.SampledFrom([]string{"accounts", "transactions", "balances", "aggregate/balances", "logs"}).Draw(t, "endpoint")
@@ -211,9 +221,38 @@ func c20Gen(t *rapid.T) (hostile, twin c20Req, desc string, rawValue string) {
 	return c20Req{method, path, hq, nil}, c20Req{method, path, bq, nil}, fmt.Sprintf("v1 %s %s %s", method, ep, p), rawValue
 }
 
+// c20KeyVariant spells an accepted filter key differently.
+func c20KeyVariant(t *rapid.T, key string) string {
+	switch rapid.IntRange(0, 8).Draw(t, "keyVariantKind") {
+	case 0:
+		return strings.ToUpper(key)
+	case 1:
+		return strings.ToUpper(key[:1]) + key[1:]
+	case 2, 7, 8:
+		// letters outside ASCII that Unicode case folding equates with ASCII ones (long s, Kelvin sign)
+		r := strings.NewReplacer("s", "\u017f", "k", "\u212a", "S", "\u017f", "K", "\u212a")
+		return r.Replace(key)
+	case 3:
+		pos := rapid.IntRange(0, len(key)-1).Draw(t, "flipAt")
+		c := key[pos : pos+1]
+		if c == strings.ToLower(c) {
+			c = strings.ToUpper(c)
+		} else {
+			c = strings.ToLower(c)
+		}
+		return key[:pos] + c + key[pos+1:]
+	case 4:
+		return rapid.SampledFrom([]string{" ", "\t", "\n"}).Draw(t, "blank") + key
+	case 5:
+		return key + rapid.SampledFrom([]string{" ", " --", ";", ")", " or true", "/**/", "'", "\"", "::text", " desc"}).Draw(t, "keyTail")
+	default:
+		return key + hostileString(t, "keyTailAny")
+	}
+}
+
 func TestC20(t *testing.T) {
 	c := evid.New("C20")
-	c.Rule = "requests to every listing of both API versions (v2 JSON bodies with $match/$lt/$lte/$gt/$gte, nested $and/$or, GET and HEAD; v1 query parameters address, account, source, destination, reference, metadata[k], balance, balanceOperator, start_time, end_time, after), with and without pit/expand, carrying values, metadata keys and (one case in six) operator names assembled from hostile fragments (quotes, doubled quotes, backslashes, comment markers, semicolons, dollar quotes, parentheses, non-ASCII, newlines, 10 kB runs) or JSON non-strings; each is paired with a benign twin of the same shape. The real routers run over ledgerstore.Store over a recording driver. Oracle: the request sent twice is treated the same way both times; hostile request rejected, or every statement lexes as PostgreSQL and has the twin's token skeleton (string constants and numbers abstracted). Non-trivial = the hostile request reached the driver and its value contains one of ' \\ \" -- /* ; distinct by (endpoint, key, operator, value)."
+	c.Rule = "requests to every listing of both API versions (v2 JSON bodies with $match/$lt/$lte/$gt/$gte, nested $and/$or, GET and HEAD; v1 query parameters address, account, source, destination, reference, metadata[k], balance, balanceOperator, start_time, end_time, after), with and without pit/expand, carrying values, metadata keys, (one case in six) operator names and (one v2 case in four) other spellings of the accepted filter keys (letter case, letters that case-fold to ASCII ones, blanks, appended text) assembled from hostile fragments (quotes, doubled quotes, backslashes, comment markers, semicolons, dollar quotes, parentheses, non-ASCII, newlines, 10 kB runs) or JSON non-strings; each is paired with a benign twin of the same shape. The real routers run over ledgerstore.Store over a recording driver. Oracle: the request sent twice is treated the same way both times; hostile request rejected, or every statement lexes as PostgreSQL and has the twin's token skeleton (string constants and numbers abstracted). Non-trivial = the hostile request reached the driver and its value contains one of ' \\ \" -- /* ; distinct by (endpoint, key, operator, value)."
 	c.Assumptions = []string{"the PostgreSQL lexer of harness/sqlrec (standard_conforming_strings=on) is the judge of SQL structure", "the content of a jsonpath / JSON document inside a string constant is not inspected"}
 	runProp(t, c, func(rt *rapid.T) {
 		hostile, twin, desc, val := c20Gen(rt)
